@@ -1,10 +1,12 @@
 package main
 
 import (
+	"context"
 	"fmt"
 	"strings"
 
 	"github.com/a-h/templ"
+	"verif/harness/tmpl"
 )
 
 func init() { register("C04", runC04) }
@@ -40,6 +42,22 @@ func runC04(e *emitter, tier string, seed uint64) {
 		c04Emit(e, v)
 	}
 	c04Typing(e, seed, tier)
+	// the other route by which a dynamic value reaches href / action: spread attributes
+	for _, v := range xssVectors {
+		for _, el := range []string{"a", "form"} {
+			key := "spread " + el + " " + v
+			if !e.mine(key) {
+				continue
+			}
+			var sb strings.Builder
+			if el == "a" {
+				_ = tmpl.SpreadAnchor(templ.Attributes{"href": v}).Render(context.Background(), &sb)
+			} else {
+				_ = tmpl.SpreadForm(templ.Attributes{"action": v}).Render(context.Background(), &sb)
+			}
+			e.emit(key, "spread", el, hx(v), hx(sb.String()))
+		}
+	}
 	full := []string{"j", "J", "a", "h", "H", "t", "T", "p", "P", "s", "S", ":", "/", "\\", "?", "#", "%", "&", ";", "\t", "\n", "\r", " ", "\x00", "ſ", "é", "\xff"}
 	n := 4
 	if tier == "thorough" {
@@ -71,6 +89,21 @@ func runC04(e *emitter, tier string, seed uint64) {
 					for _, tl := range tails {
 						c04Emit(e, cased[:pos]+ins+cased[pos:]+":"+tl)
 					}
+				}
+			}
+		}
+	}
+	// LONG disguises: runs of bytes a browser ignores (leading C0 / space; TAB, LF, CR anywhere) of every length up to 70
+	// in front of, inside and behind the scheme name - a bound on where the colon is looked for must not matter
+	for _, sc := range []string{"javascript", "JavaScript", "data", "vbscript", "http", "mailto"} {
+		for _, fill := range []string{" ", "\t", "\n", "\r", "\x00", "\x01", "\x1f", "\t\n"} {
+			for n := 0; n <= 70; n += 1 + n/16 {
+				run := strings.Repeat(fill, n)
+				c04Emit(e, run+sc+":alert(1)")
+				if fill == "\t" || fill == "\n" || fill == "\r" || fill == "\t\n" {
+					c04Emit(e, sc[:2]+run+sc[2:]+":alert(1)")
+					c04Emit(e, sc+run+":alert(1)")
+					c04Emit(e, run+sc[:1]+run+sc[1:]+run+":x")
 				}
 			}
 		}
@@ -137,14 +170,14 @@ func c04Typing(e *emitter, seed uint64, tier string) {
 		{"in-for", "for i := 0; i < 2; i++ {\n\t\t<%[1]s if d { %[2]s={ %[3]s } }>x</%[1]s>\n\t}"},
 		{"in-call-block", "@wrap() {\n\t\t<%[1]s %[2]s={ %[3]s }>x</%[1]s>\n\t}"},
 	}
-	pairs := [][2]string{{"a", "href"}, {"form", "action"}}
+	pairs := [][2]string{{"a", "href"}, {"form", "action"}, {"a", "HREF"}, {"a", "Href"}, {"form", "Action"}, {"A", "href"}, {"FORM", "ACTION"}}
 	exprs := []string{"u", "templ.URL(s)", "templ.SafeURL(s)", "p.Link"}
 	for _, sh := range shapes {
 		for _, p := range pairs {
 			for _, ex := range exprs {
 				body := fmt.Sprintf(sh.tmpl, p[0], p[1], ex)
 				src := "package x\n\ntempl wrap() {\n\t<div>{ children... }</div>\n}\n\ntempl T(c, d bool, s string, u templ.SafeURL, p P) {\n\t" + body + "\n}\n"
-				key := "typing " + sh.name + " " + p[0] + " " + ex
+				key := "typing " + sh.name + " " + p[0] + "." + p[1] + " " + ex
 				if !e.mine(key) {
 					continue
 				}
